@@ -1,7 +1,8 @@
 (* C04 — Plural expressions are parsed and evaluated exactly as C/gettext would. *)
 From Coq Require Import ZArith List.
 From I18n Require Import Lib.Outcome Model.IntExpr Spec.CPlural Generated.PyConsts
-  Proofs.Codomain Proofs.IntExprEval Proofs.IntExprParse.
+  Proofs.Codomain Proofs.IntExprEval Proofs.IntExprParse Proofs.IntExprFuel Proofs.IntExprComplete
+  Proofs.IntExprLex.
 Import ListNotations.
 Local Open Scope Z_scope.
 
@@ -10,6 +11,101 @@ Local Open Scope Z_scope.
 Theorem C04_parse_sound : forall maxd ts e, parse_tokens maxd ts = Ok e -> G 0 ts e.
 Proof. exact parse_tokens_sound. Qed.
 Print Assumptions C04_parse_sound.
+
+(* ... and conversely every sentence of the grammar is accepted, with that tree, as long as no constant
+   exceeds the interpreter's digit limit maxd (0 = no limit).  G's sentences contain no error token, so
+   there is no side condition on TBad. *)
+Theorem C04_parse_complete : forall maxd ts e, G 0 ts e ->
+  (forall z d, In (TInt z d) ts -> max_digits_ok maxd d = true) -> parse_tokens maxd ts = Ok e.
+Proof. exact parse_tokens_complete. Qed.
+Print Assumptions C04_parse_complete.
+
+Theorem C04_parse_iff : forall maxd ts e,
+  (forall z d, In (TInt z d) ts -> max_digits_ok maxd d = true) ->
+  (parse_tokens maxd ts = Ok e <-> G 0 ts e).
+Proof. exact parse_tokens_iff. Qed.
+Print Assumptions C04_parse_iff.
+
+(* rejection is exact as well: a syntax error iff the token sequence is not a sentence *)
+Theorem C04_parse_rejects : forall maxd ts,
+  (forall z d, In (TInt z d) ts -> max_digits_ok maxd d = true) ->
+  (parse_tokens maxd ts = Err SynErr <-> ~ exists e, G 0 ts e).
+Proof. exact parse_tokens_rejects. Qed.
+Print Assumptions C04_parse_rejects.
+
+(* the stratified grammar assigns one tree to a sentence (C precedence and associativity leave no choice) *)
+Theorem C04_grammar_unambiguous : forall ts e1 e2, G 0 ts e1 -> G 0 ts e2 -> e1 = e2.
+Proof. exact G_unambiguous. Qed.
+Print Assumptions C04_grammar_unambiguous.
+
+(* The model's fuel (4*|ts|+4; 2*|ts|+2 is what the proof needs) never runs out: the only foreign
+   exception the parser can raise is int()'s ValueError on an over-long constant, and none at all
+   when every constant is within the digit limit. *)
+Theorem C04_parse_fuel_sufficient : forall maxd ts, parse_tokens maxd ts <> Crash COutOfFuel.
+Proof. exact parse_tokens_fuel. Qed.
+Print Assumptions C04_parse_fuel_sufficient.
+
+Theorem C04_parse_crash_kind : forall maxd ts c, parse_tokens maxd ts = Crash c -> c = CValueError.
+Proof. exact parse_tokens_crash_kind. Qed.
+Print Assumptions C04_parse_crash_kind.
+
+Theorem C04_parse_tokens_no_crash : forall maxd ts c,
+  (forall z d, In (TInt z d) ts -> max_digits_ok maxd d = true) -> parse_tokens maxd ts <> Crash c.
+Proof. exact parse_tokens_no_crash. Qed.
+Print Assumptions C04_parse_tokens_no_crash.
+
+(* Lexing: the token stream of the model is the one plural.y's yylex (Spec/CPlural.v, transcribed from the
+   C text) returns up to YYEOF at the end of the string; the model's stream carries the error token TBad
+   exactly when yylex returns YYERRCODE or stops before the end (at ';', newline or NUL). *)
+Theorem C04_lexer_spec : forall s ts, Yylex s ts [] <-> (lex None s = ts /\ ~ In TBad ts).
+Proof. exact lex_spec. Qed.
+Print Assumptions C04_lexer_spec.
+
+(* Strings.  in_plural_language s: plural.y's lexer reads all of s without error and its grammar derives
+   the tokens.  With the interpreter's digit limit as generated (0 = unlimited after `import lib`): *)
+Theorem C04_accept_iff : forall s,
+  (exists e, parse_string int_max_str_digits s = Ok e) <-> in_plural_language s.
+Proof. exact (fun s => parse_string_accept_iff int_max_str_digits s (sdigits_ok_unlimited s)). Qed.
+Print Assumptions C04_accept_iff.
+
+(* ... and the tree returned is the (unique) tree plural.y's stratification gives *)
+Theorem C04_tree_iff : forall s e, parse_string int_max_str_digits s = Ok e <-> plural_tree s e.
+Proof. exact (fun s e => parse_string_tree int_max_str_digits s e (sdigits_ok_unlimited s)). Qed.
+Print Assumptions C04_tree_iff.
+
+Theorem C04_tree_unique : forall s e1 e2, plural_tree s e1 -> plural_tree s e2 -> e1 = e2.
+Proof. exact plural_tree_unique. Qed.
+Print Assumptions C04_tree_unique.
+
+Theorem C04_reject_iff : forall s,
+  parse_string int_max_str_digits s = Err SynErr <-> ~ in_plural_language s.
+Proof. exact (fun s => parse_string_rejects int_max_str_digits s (digits_ok_unlimited (lex None s))). Qed.
+Print Assumptions C04_reject_iff.
+
+(* the same for any digit limit, under the side condition (stated on the specification's lexer) that no
+   constant of the expression is longer than the limit *)
+Theorem C04_accept_iff_limit : forall maxd s,
+  (forall ts, Yylex s ts [] -> forall z d, In (TInt z d) ts -> max_digits_ok maxd d = true) ->
+  ((exists e, parse_string maxd s = Ok e) <-> in_plural_language s).
+Proof. exact parse_string_accept_iff. Qed.
+Print Assumptions C04_accept_iff_limit.
+
+(* plural.y stops reading at ';', newline and NUL and ignores what follows; the tool gets the expression
+   already cut out of the header field and rejects such characters.  On all other strings "plural.y
+   accepts" and "plural.y accepts having read everything" are the same thing. *)
+Theorem C04_terminator_rejected : forall maxd s c e,
+  In c s -> (c = 59 \/ c = 10 \/ c = 0)%N -> parse_string maxd s <> Ok e.
+Proof. exact terminator_rejected. Qed.
+Print Assumptions C04_terminator_rejected.
+
+Theorem C04_no_terminator : forall s, no_terminator s -> (plural_y_accepts s <-> in_plural_language s).
+Proof. exact plural_y_accepts_iff. Qed.
+Print Assumptions C04_no_terminator.
+
+(* The parser raises nothing but its own syntax error (D7 fixed: no digit limit). *)
+Theorem C04_parse_no_crash : forall s c, parse_string int_max_str_digits s <> Crash c.
+Proof. exact (fun s c => parse_string_no_crash int_max_str_digits s c (digits_ok_unlimited (lex None s))). Qed.
+Print Assumptions C04_parse_no_crash.
 
 (* Evaluation returns v iff v is the value of the ideal evaluation in which every evaluated constant,
    variable and intermediate result lies in [0, M) and no executed divisor is 0 (&& || ?: lazy). *)
@@ -61,6 +157,27 @@ Example C04_ex_eval :
   pyeval (2^32) (And (Num 0) (Bin Div (Num 1) (Num 0))) 0 = Ok 0 /\
   pyeval (2^32) (Bin Div Var (Num 0)) 7 = Err EDivZero.
 Proof. vm_compute. repeat split; reflexivity. Qed.
+(* lexer corner cases through the iff: "n%10==1 ? 0 : 1" is in the language; "n ! = 1", "n & 1", "n = 1",
+   "n n", "n;" and the empty string are not *)
+Example C04_ex_language :
+  in_plural_language [110;37;49;48;61;61;49;32;63;32;48;32;58;32;49]%N /\
+  ~ in_plural_language [110;32;33;32;61;32;49]%N /\
+  ~ in_plural_language [110;32;38;32;49]%N /\
+  ~ in_plural_language [110;32;61;32;49]%N /\
+  ~ in_plural_language [110;32;110]%N /\
+  ~ in_plural_language [110;59]%N /\
+  ~ in_plural_language [].
+Proof.
+  repeat split; try (apply C04_reject_iff; vm_compute; reflexivity).
+  apply C04_accept_iff. eexists. vm_compute. reflexivity.
+Qed.
+(* ... while plural.y itself, stopping at ';', accepts "n;" *)
+Example C04_ex_terminator : plural_y_accepts [110;59]%N.
+Proof.
+  exists [TVar], [59%N], Var. split.
+  - eapply Y_tok; [vm_compute; reflexivity|]. eapply Y_eof. vm_compute. reflexivity.
+  - apply (G_mono 7); [constructor|]. repeat constructor.
+Qed.
 (* what the digit limit of CPython >= 3.11 did before the fix (D7): *)
 Example C04_refuted_with_digit_limit :
   parse_string 4300 (repeat 49%N (N.to_nat 4301)) = Crash CValueError.
